@@ -281,6 +281,44 @@ def genesisNode {σ : Type} (g : Block) (s0 : σ) : Node σ :=
   { head := g, cur := s0, canon := upd (fun _ => none) g.height (some g.hash), hdr := upd (fun _ => none) g.hash (some g),
     txIdx := fun _ => none, certs := fun _ => none, vers := upd (fun _ => none) g.height (some s0) }
 
+/-! `ReadBlockForForkedPeer` (blockchain.go:2934): what a node serves to a peer that sent its top block hashes -/
+
+/-- first asked hash the node has a header for: (its height, number of hashes examined); (1, _) when none -/
+def findCommon {σ : Type} (n : Node σ) : List Nat → Nat → Nat × Nat
+  | [], need => (1, need)
+  | y :: rest, need =>
+    match n.hdr y with
+    | some b => (b.height, need + 1)
+    | none => findCommon n rest (need + 1)
+
+/-- canonical blocks with their certificate records from height `h`, at most `k`, stopping at a missing block -/
+def serveRange {σ : Type} (n : Node σ) : Nat → Nat → List Bundle
+  | _, 0 => []
+  | h, k + 1 =>
+    match ownBlock n h with
+    | none => []
+    | some b => ⟨b, n.certs b.hash⟩ :: serveRange n (h + 1) k
+
+/-- the range is extended by up to `StoreCertRange` blocks until one has a certificate record (`cert != nil`);
+a missing block empties the answer -/
+def serveExtend {σ : Type} (n : Node σ) : Nat → Nat → List Bundle → List Bundle
+  | _, 0, acc => acc
+  | h, k + 1, acc =>
+    match ownBlock n h with
+    | none => []
+    | some b =>
+      if (n.certs b.hash).isSome then acc ++ [⟨b, n.certs b.hash⟩]
+      else serveExtend n (h + 1) k (acc ++ [⟨b, n.certs b.hash⟩])
+
+def serveFork {σ : Type} (n : Node σ) (storeCertRange : Nat) (asked : List Nat) : List Bundle :=
+  let cn := findCommon n asked 0
+  if cn.1 = 1 then []
+  else
+    let r := serveRange n (cn.1 + 1) (min cn.2 (n.head.height - cn.1))
+    match r.getLast? with
+    | none => []
+    | some last => if last.cert.isSome then r else serveExtend n (last.block.height + 1) storeCertRange r
+
 /-- what the property compares between the adopting node and a clean follower -/
 structure Obs (σ : Type) where
   head : Block
